@@ -1,0 +1,5 @@
+//go:build !verif
+
+package msg
+
+func verifYield(string) {}
